@@ -264,7 +264,7 @@ class _:
 @contract(L + "__init__#empty")
 class _:
     sorts = {"self": "ref:Library", "blocks": "none"}
-    ensures = {"C08.init": "len(self._blocks) == 0 and fresh(self._blocks) and fresh(self._entries_by_key) and fresh(self._strings_by_key) and forall(k, 'str', True, not (k in self._entries_by_key) and not (k in self._strings_by_key))",
+    ensures = {"C08.init": "len(self._blocks) == 0 and fresh(self._blocks) and fresh(self._entries_by_key) and fresh(self._strings_by_key) and allocated(self._blocks) and allocated(self._entries_by_key) and allocated(self._strings_by_key) and forall(k, 'str', True, not (k in self._entries_by_key) and not (k in self._strings_by_key))",
                "C08.wf-held": "held_indexed(self)", "C08.wf-typed": "index_typed(self)", "C08.wf-once": "keyed_once(self)"}
     raises = {}
     modifies = ["@self._blocks", "@self._entries_by_key", "@self._strings_by_key"]
